@@ -39,7 +39,10 @@ Cats == [e \in Ents |-> IF e = "e2" THEN {"cat1", "cat2"} ELSE {}]
 Required == [e \in Ents |-> IF e = "e2" THEN {"givenName"} ELSE {}]
 Optional == [e \in Ents |-> IF e = "e2" THEN {"mail"} ELSE {}]
 
-Validity == {"absent", "future", "past"}
+\* pastOffset: an instant in the past written with a numeric time-zone offset (+02:00) instead of the UTC form the metadata
+\* schema profile demands; read naively (offset dropped, or applied with the wrong sign) it would lie in the future.  The
+\* library's schema validation refuses such a document as a whole.
+Validity == {"absent", "future", "past", "pastOffset"}
 Scn == [vuDoc : Validity, vuE1 : Validity, sig : {"none", "valid", "invalid", "wrapped"}, cert : BOOLEAN,
         dupe : BOOLEAN, order : {"AB", "BA"}]
 
@@ -47,12 +50,14 @@ VARIABLES scn, pc, loaded     \* loaded: sequence of sources registered, in load
 vars == <<scn, pc, loaded>>
 \* a tampered or wrapped aggregate is only meaningful where a verification certificate is configured
 \* (without one it is simply another document)
-WellFormed(s) == s.sig \in {"invalid", "wrapped"} => s.cert
+WellFormed(s) == /\ s.sig \in {"invalid", "wrapped"} => s.cert
+                 /\ (s.vuDoc = "pastOffset" \/ s.vuE1 = "pastOffset") => s.sig \in {"none", "valid"}
 Init == scn \in {s \in Scn : WellFormed(s)} /\ pc = "load1" /\ loaded = <<>>
 
 \* a source is registered iff parsing and checking succeed
+NotUtc == scn.vuDoc = "pastOffset" \/ scn.vuE1 = "pastOffset"
 LoadsOK(src) == IF src = "B" THEN TRUE
-                ELSE /\ scn.vuDoc # "past"
+                ELSE /\ scn.vuDoc # "past" /\ ~NotUtc
                      /\ (scn.cert /\ scn.sig # "none" => scn.sig = "valid")
 First  == IF scn.order = "AB" THEN "A" ELSE "B"
 Second == IF scn.order = "AB" THEN "B" ELSE "A"
@@ -124,6 +129,6 @@ Spec == Init /\ [][Next]_vars
 \* the operational store answers within the contract, for every query of the universe
 PipelineMeetsContract == pc = "query" => \A a \in Answers : a.model \in a.ok
 \* nothing from expired or unverified sources
-NoExpired == pc = "query" /\ scn.vuDoc = "past" => "A" \notin RangeOf(loaded)
+NoExpired == pc = "query" /\ scn.vuDoc \in {"past", "pastOffset"} => "A" \notin RangeOf(loaded)
 SignedOnly == pc = "query" /\ scn.cert /\ scn.sig \in {"invalid", "wrapped"} => "A" \notin RangeOf(loaded)
 =============================================================================
